@@ -174,7 +174,7 @@ def rnd_pre(r):
 
 
 def rnd_build(r, p=0.05):
-    return r.choice(['b1', '001', 'exp.sha.5114f85']) if r.random() < p else ''
+    return r.choice(['b1', '001', 'exp.sha.5114f85', 'build-7', 'wasi-snapshot-preview1']) if r.random() < p else ''
 
 
 def rnd_partial(r, flavors, full_bias=0.55):
